@@ -44,6 +44,11 @@ TRUSTED_BASE = [
     'asyncio.wait / ensure_future / Task.result / Task.exception / cancel as heap operations driven by the model\'s '
     'labels); the C19_tie_* theorems prove that this semantics of the REGENERATED bodies equals Aio/Model.v for all '
     'label sequences',
+    'kind of the merge_aiters / agen_with_wait tie: PIN + SIMULATION OF THE PINNED TERM (Aio/TieMerge.v merge_body_shape, '
+    'TieAgen.v agen_body_shape pin the regenerated bodies to hand-copied terms by reflexivity; the simulation is about the '
+    'pinned term; any AST change, also behaviour-preserving, breaks it); the to_aiter tie executes the regenerated methods '
+    'symbolically; `iclose` (aclose / cancellation of the consumer) is given the meaning "the generator ends at its '
+    'suspension point, armed tasks are not cancelled" because the syntax has no try/finally (the translator refuses them)',
     'correspondence harness harness/props/c19.py (gated sources, event log -> model labels, schedule generators)',
     'harness stub around asyncio.wait: returns the same done/pending sets, the done set being a set subclass whose '
     'pop()/iteration order is the generated one (any order is a legal behaviour of a Python set)',
@@ -52,6 +57,9 @@ TRUSTED_BASE = [
     'list iterators are atomic under the GIL',
 ]
 ASSUMPTIONS = [
+    'no label of Aio/Model.v for: a consumer that closes / is cancelled (covered on the machine only: '
+    'C19_tie_merge_close_loss / C19_tie_agen_close_loss: at most one item per source consumed and never yielded), athrow(), '
+    'awaited tasks that are cancelled',
     'sources are distinct async-iterator objects that produce items and then raise StopAsyncIteration '
     '(a source raising another exception, or the same object passed twice, is outside the statement)',
     'the consumer keeps at most one anext/asend outstanding on merge_aiters/agen_with_wait (async generators forbid more)',
@@ -1156,9 +1164,77 @@ def make_cases(rng, tier):
     return cases
 
 
+async def run_blocking_sources_case(n_other: int, thread_flags: tuple, timeout: float = 8.0) -> dict:
+    """merge_aiters over to_aiter sources of which source 0 BLOCKS inside next() (a queue-backed iterator) until the consumer
+    has received every item of the other sources: "these hold for every interleaving of the sources" includes a source that
+    is slow inside its own next().  -> what was yielded, whether the merge finished"""
+    import queue as _queue
+    from nextline.utils import aio
+    q: _queue.Queue = _queue.Queue()
+    others = [[(i + 1) * 10 + k for k in range(2)] for i in range(n_other)]
+    srcs = [aio.to_aiter(iter(q.get, None), thread=thread_flags[0])] + \
+           [aio.to_aiter(list(it), thread=thread_flags[1]) for it in others]
+    got: list = []
+    fed = False
+
+    async def consume():
+        nonlocal fed
+        async for i, v in aio.merge_aiters(*srcs):
+            got.append([i, v])
+            if not fed and sum(1 for j, _ in got if j != 0) == sum(len(x) for x in others):
+                fed = True
+                q.put(1); q.put(2); q.put(None)        # only now does source 0 get its items
+    finished = True
+    try:
+        await asyncio.wait_for(consume(), timeout)
+    except asyncio.TimeoutError:
+        finished = False
+        q.put(None)
+    return {'n_other': n_other, 'thread': list(thread_flags), 'got': got, 'finished': finished, 'others': others}
+
+
+def oracle_blocking_sources(o: dict) -> list:
+    bad = []
+    want0 = [1, 2]
+    for i, it in enumerate([want0] + o['others']):
+        seen = [v for j, v in o['got'] if j == i]
+        if seen != it[:len(seen)]:
+            bad.append(('merge:projection-not-prefix', f'items tagged {i}: {seen}, source {i} produces {it}'))
+        elif o['finished'] and seen != it:
+            bad.append(('merge:finished-with-items-missing', f'finished with {seen} of {it} from source {i}'))
+    if not o['finished']:
+        missing = {i: [v for v in it if [i, v] not in o['got']] for i, it in enumerate([want0] + o['others'])}
+        bad.append(('merge:blocked-by-a-slow-source', f'source 0 blocks inside next() until the items of the other sources have been consumed; the merged '
+                                                      f'iterator yielded {o["got"]} and then nothing for 8 s (never yielded: {missing})'))
+    return bad[:2]
+
+
 def correspond(ctx) -> Corr:
+    # sources that block inside their own next() (thread-mode to_aiter): oracle only; run first, the generated cases below assume
+    # things about the shape of the code that a changed tree may no longer have
+    blocking = []
+    loop = asyncio.new_event_loop()
+    try:
+        nb = 0
+        for n_other in ((1, 2) if ctx.tier == 'quick' else (1, 2, 3, 5)):
+            for flags in ((True, True), (True, False)):
+                o = loop.run_until_complete(run_blocking_sources_case(n_other, flags))
+                nb += 1
+                for sig, what in oracle_blocking_sources(o):
+                    blocking.append(Violation(sig, what, {'kind': 'blocking-sources', 'n_other': n_other, 'thread': list(flags), 'observed': o}))
+    finally:
+        loop.close()
     cases = make_cases(ctx.rng, ctx.tier)
-    corr = _run_cases(ctx, cases)
+    try:
+        corr = _run_cases(ctx, cases)
+    except Exception as e:     # noqa
+        if not blocking:
+            raise
+        corr = Corr()
+        corr.mismatches.append({'kind': 'correspondence-harness', 'error': repr(e)})
+    corr.violations = blocking + corr.violations
+    corr.extra['blocking_source_cases'] = nb
+    corr.evaluations += nb
     exh = 4 if ctx.tier == 'quick' else 6
     corr.extra['exhaustive_merge_bound'] = f'all harness schedules of length <= {exh} over {{next, rel 0, rel 1, rel 0+1, spin}} x 2 set orders, sources [[101],[201,202]]'
     return corr
@@ -1218,6 +1294,16 @@ def search(ctx, broken) -> list:
 
 def replay(ctx, path: Path) -> int:
     j = json.loads(path.read_text())
+    if j.get('kind') == 'blocking-sources':
+        loop = asyncio.new_event_loop()
+        o = loop.run_until_complete(run_blocking_sources_case(j['n_other'], tuple(j['thread'])))
+        loop.close()
+        print('observed:', o)
+        bad = oracle_blocking_sources(o)
+        for sig, what in bad:
+            print('FAILS:', sig, what)
+        print('replay verdict:', 'property violated' if bad else 'property holds on this input')
+        return 1 if bad else 0
     case = j.get('case', j)
     loop = _new_loop()
     try:
